@@ -143,7 +143,7 @@ Fixpoint obj_fmt (fl : fills) (o : obj) : str :=
       let rest :=
         let inner_s := concat_str (map (obj_fmt fl) inner) in
         if name_subparse name && negb (Nat.eqb (length inner) 0)
-        then blockf (f_tab fl ++ reindent fl inner_s)
+        then (if forallb is_space inner_s then [] else blockf (f_tab fl ++ reindent fl inner_s))   (* rules that print nothing: nothing to wrap *)
         else inner_s in
       own ++ rest
   end.
